@@ -35,3 +35,23 @@ fn main() {
 pub fn jhex(j: &J, k: &str) -> Vec<u8> { hex(j[k].as_str().unwrap_or("")) }
 pub fn names() -> HashMap<apache_avro::schema::Name, Schema> { HashMap::new() }
 pub fn _unused(_: &Value) { let _ = hk::safe_len(0); }
+
+/// tiny JSON notation for generic values: null | {"long":n} | {"int":n} | {"string":s} | {"bytes":hex} | {"fixed":hex} | {"boolean":b} |
+/// {"float":x} | {"double":x} | {"enum":[i,sym]} | {"union":[i,v]} | {"array":[..]} | {"map":{k:v}} | {"record":[[name,v],..]}
+pub fn dsl(j: &J) -> Result<Value, String> {
+    if j.is_null() { return Ok(Value::Null); }
+    let o = j.as_object().ok_or("value dsl: object expected")?;
+    let (k, v) = o.iter().next().ok_or("value dsl: empty object")?;
+    Ok(match k.as_str() {
+        "long" => Value::Long(v.as_i64().ok_or("long")?), "int" => Value::Int(v.as_i64().ok_or("int")? as i32),
+        "string" => Value::String(v.as_str().ok_or("string")?.to_string()), "bytes" => Value::Bytes(hex(v.as_str().unwrap_or(""))),
+        "fixed" => { let b = hex(v.as_str().unwrap_or("")); Value::Fixed(b.len(), b) }
+        "boolean" => Value::Boolean(v.as_bool().ok_or("bool")?), "float" => Value::Float(v.as_f64().ok_or("float")? as f32), "double" => Value::Double(v.as_f64().ok_or("double")?),
+        "enum" => Value::Enum(v[0].as_u64().ok_or("enum idx")? as u32, v[1].as_str().unwrap_or("").to_string()),
+        "union" => Value::Union(v[0].as_u64().ok_or("union idx")? as u32, Box::new(dsl(&v[1])?)),
+        "array" => Value::Array(v.as_array().ok_or("array")?.iter().map(dsl).collect::<Result<_, _>>()?),
+        "map" => Value::Map(v.as_object().ok_or("map")?.iter().map(|(k, x)| Ok((k.clone(), dsl(x)?))).collect::<Result<_, String>>()?),
+        "record" => Value::Record(v.as_array().ok_or("record")?.iter().map(|p| Ok((p[0].as_str().unwrap_or("").to_string(), dsl(&p[1])?))).collect::<Result<_, String>>()?),
+        other => return Err(format!("value dsl: unknown tag {other}")),
+    })
+}
